@@ -14,6 +14,8 @@ CHECKS = {
  "C03": dict(engine="symtorch+z3", tech="symbolic execution of the gradient methods vs symbolic derivative of the NLL; z3 on normal-form residuals", design="2/C03"),
  "C04": dict(engine="symtorch+z3", tech="symbolic execution of the rotation routines on symbolic psi/rho vs dense Kronecker reference; z3 on residuals", design="2/C04"),
  "C05": dict(engine="symtorch+z3", tech="symbolic execution of gibbs_steps with a recording Bernoulli stub (all outcomes unrolled); conditionals, termwise detailed balance and chain structure decided by z3 on residuals", design="2/C05"),
+ "C08": dict(engine="symtorch+z3", tech="symbolic execution of the observables' apply on the full basis, exactly weighted, vs Tr(rho O) from Pauli definitions; z3 on residuals", design="2/C08"),
+ "C09": dict(engine="symtorch+z3", tech="symbolic execution of SWAP.apply on all ordered pairs, exactly weighted, vs explicit partial trace; sum-of-squares certificate; z3 on residuals", design="2/C09"),
  "C15": dict(engine="symtorch+z3", tech="symbolic execution of every cplx function vs complex-scalar arithmetic; z3 on residuals", design="2/C15"),
 }
 CHECKS.update(json.load(open(os.path.join(HERE, "bin", "manifest_extra.json"))) if os.path.exists(os.path.join(HERE, "bin", "manifest_extra.json")) else {})
